@@ -37,6 +37,7 @@ def expected_unified(cont):
             order.append(("grp", key))
         groups[key].append(r)
     out = []
+    conflicts = set()
     for kind, x in order:
         if kind == "anon":
             out.append(strict_rec(x))
@@ -48,11 +49,13 @@ def expected_unified(cont):
             for a, v in r.attributes:
                 if a.uri in FORMAL and len(rs) > 1:
                     if a.uri in singles and not (singles[a.uri] == v):
-                        return ("conflict", x[0])
+                        conflicts.add((x[0], a.uri))
                     singles.setdefault(a.uri, v)
                 pairs.add((a.uri, strict_value(v)))
         # values equal under == but of different kinds collapse in a Python set: compare modulo that
         out.append((x[0], x[1], tuple(sorted(pairs, key=repr))))
+    if conflicts:
+        return ("conflict", sorted(conflicts))
     return ("ok", out)
 
 
@@ -101,7 +104,8 @@ class C08Oracle(worldprop.Oracle):
                 continue
             if any_conflict:
                 self.fail(idx, "unified() succeeded although two same-identifier records disagree on a formal attribute",
-                          doc=di, conflict_kinds=sorted({e[1] for e in exp if e[0] == "conflict"}))
+                          doc=di, conflict_kinds=sorted({k for e in exp if e[0] == "conflict" for k, _ in e[1]}),
+                          conflicts=sorted({ka for e in exp if e[0] == "conflict" for ka in e[1]}))
                 continue
             if observable_doc(d) != before:
                 self.fail(idx, "unified() changed the original", doc=di)
@@ -145,8 +149,9 @@ class C08Oracle(worldprop.Oracle):
 
 
 def classify(f, ops):
-    if f["what"].startswith("unified() succeeded although") and \
-            f.get("conflict_kinds") == ["http://www.w3.org/ns/prov#Membership"]:
+    # known: same-identifier memberships that disagree on their *member* only (every conflict of the document is one)
+    if f["what"].startswith("unified() succeeded although") and f.get("conflicts") and \
+            all(list(c) == ["http://www.w3.org/ns/prov#Membership", "http://www.w3.org/ns/prov#entity"] for c in f["conflicts"]):
         return "C08-F1"
     return None
 
@@ -271,7 +276,7 @@ def run(tier, seed, log, model_runs=True, enlarged=False):
                                    "conflicting formal values) in documents and bundles; after every record-changing call every "
                                    "document of a deep copy is unified and compared with an independent merge specification; "
                                    "non-trivial = some identifier used by >=2 NewRecord calls",
-                         extra_cases=fixed_programs(),
+                         extra_cases=fixed_programs() + __import__('harness.progs', fromlist=['x']).same_text_programs((), derive=True),
                          theorem_note="C08_* over World.unified_records")
 
 
